@@ -2,7 +2,7 @@ from typing import Any
 
 from pydbml.classes import Expression, Index, Column
 from pydbml.renderer.sql.default.renderer import DefaultSQLRenderer
-from pydbml.renderer.sql.default.utils import comment_to_sql
+from pydbml.renderer.sql.default.utils import comment_to_sql, get_full_name_for_sql
 
 
 def render_subject(subject: Any) -> str:
@@ -35,7 +35,7 @@ def create_components(model: Index, keys: str) -> str:
     if model.name:
         components.append(f'"{model.name}" ')
     if model.table:
-        components.append(f'ON "{model.table.name}" ')
+        components.append(f'ON {get_full_name_for_sql(model.table)} ')
 
     if model.type:
         components.append(f'USING {model.type.upper()} ')
